@@ -918,7 +918,7 @@ pub fn run(tier: Tier, started: Instant) -> Vec<Part> {
     let max_len = tier.pick(3, 4);
     let mut g = Part::new(&format!("hostile/op-grammar(len<={max_len})"));
     g.rule = format!("every op sequence of length <= {max_len} over the hostile alphabet (27 member headers: known / unknown / the receiver itself x watermark {{0,3,2^64-1}} x start {{0,1,3}}; 30 key-values: key {{a, é}} x version {{0,1,2,5,2^64-1}} x status; SetMaxVersion {{0,1,5,2^64-1}}) in ANY order, framed as ACK (and as SYN-ACK on a quarter of the cases), delivered to a real node in each of 6 base states (fresh; member known and empty; (0,2) with entries; mid-reset (3,1); (3,5) with a tombstone; member live in the failure detector and receiver owning a key); oracle: decoding does not panic, processing does not panic, frontiers do not decrease, live/dead disjoint, the receiver stays live, the node's next gossip tick, one more harmless datagram, a liveness evaluation, a GC pass and a SYN creation afterwards do not panic; non-trivial = datagrams accepted by the decoder");
-    let (t, v, capped) = grammar(max_len, secs(tier.pick(35, 2400)));
+    let (t, v, capped) = grammar(max_len, if tier == Tier::Quick { Instant::now() + Duration::from_secs(60) } else { secs(2400) });
     g.tally.merge(&t);
     push(&mut g, v);
     g.states = g.tally.get("sequences");
@@ -938,7 +938,7 @@ pub fn run(tier: Tier, started: Instant) -> Vec<Part> {
     d.rule = "every ordered pair of ACK datagrams whose delta is a member header alone or a member header followed by any one op of the hostile alphabet, delivered in sequence to the base states listed in the bounds (quick: the mid-reset copy; thorough: all six); same oracle".into();
     let bases: Vec<usize> = tier.pick(vec![3], (0..BASE_STATES).collect());
     d.bounds = json!({"base_states": bases});
-    let (t, v, capped) = two_datagrams(&bases, secs(tier.pick(50, 3000)));
+    let (t, v, capped) = two_datagrams(&bases, if tier == Tier::Quick { Instant::now() + Duration::from_secs(60) } else { secs(3000) });
     d.tally.merge(&t);
     push(&mut d, v);
     d.states = d.tally.get("sequences");
@@ -954,7 +954,7 @@ pub fn run(tier: Tier, started: Instant) -> Vec<Part> {
 
     let mut dg = Part::new("hostile/digest-grammar");
     dg.rule = "SYN (own and foreign cluster id) and SYN-ACK datagrams whose digest lists the receiver itself, a known or an unknown member with heartbeat {0, 1, 2^64-2, 2^64-1} and frontiers {(0,0), (2^64-1,0), (0,2^64-1), (3,1)}, alone or next to an entry of another member; every single datagram and every ordered pair (second one with a single-entry digest), delivered to each of the 6 base states; same oracle, which includes the node's next gossip tick and one more harmless datagram".into();
-    let (t, v, capped) = digest_grammar(2, secs(tier.pick(48, 3200)));
+    let (t, v, capped) = digest_grammar(2, if tier == Tier::Quick { Instant::now() + Duration::from_secs(60) } else { secs(3200) });
     dg.tally.merge(&t);
     push(&mut dg, v);
     dg.states = dg.tally.get("sequences");
